@@ -66,6 +66,21 @@ let flatten (fl : flat) (blk : int) (d : Mgr.dev) (ops : Mgr.fop list) (extra : 
     { d with Mgr.dmem = flat_lookup fl blk }
   end
 
+(* Bitmap flattening (performance only): the reconstruction state keeps `done` / `used` as functions nat -> bool built by
+   layering one closure per update (MRecon.upd); they are replaced by extensionally equal array lookups over the index range
+   the model consults (0 .. max n maxl), falling back to the layered function beyond it.  Off with FVM_NOFLAT=1. *)
+let flat_bits (f : nat -> bool) (len : int) : nat -> bool =
+  let arr = Array.make (len + 1) false in
+  let rec fill i k = if i <= len then (arr.(i) <- f k; fill (i + 1) (S k)) in
+  fill 0 O;
+  fun k -> let rec go acc = function O -> acc | S j -> if acc >= len then -1 else go (acc + 1) j in
+    let i = go 0 k in if i >= 0 then arr.(i) else f k
+let flat_upd (u : Mgr.updater) : Mgr.updater =
+  if noflat then u else
+  let r = u.Mgr.u_rd in
+  let len = max (int_of_nat r.MRecon.n) (max (int_of_nat r.MRecon.l) (int_of_nat u.Mgr.u_maxl)) in
+  { u with Mgr.u_rd = { r with MRecon.coq_done = flat_bits r.MRecon.coq_done len; MRecon.used = flat_bits r.MRecon.used len } }
+
 let run_case ~(checked : bool) ~(ffr : bool) (nslots : int) (slot : int) (blk : int) (ops : string list) : string =
   let m = { Mgr.m_slots = nat_of_int nslots; m_size = n_of_int slot } in
   let dev = ref (Mgr.blank_dev (n_of_int (nslots * slot)) (n_of_int blk)) in
@@ -94,7 +109,7 @@ let run_case ~(checked : bool) ~(ffr : bool) (nslots : int) (slot : int) (blk : 
           dev := d;
           (match r with
            | Mgr.RPanic -> "panic" | Mgr.RErr e -> "err:" ^ merr_name e
-           | Mgr.ROk u -> sess := Some u; "ok:" ^ counters u)
+           | Mgr.ROk u -> sess := Some (flat_upd u); "ok:" ^ counters u)
         | "seg", idx :: rest ->
           let payload = match rest with [h] -> h | _ -> "-" in
           let plen = if payload = "-" then 0 else String.length payload / 2 in
@@ -105,9 +120,9 @@ let run_case ~(checked : bool) ~(ffr : bool) (nslots : int) (slot : int) (blk : 
              dev := Mgr.clear_flags d;
              (match r with
               | Mgr.RPanic -> sess := None; "panic"
-              | Mgr.RErr e -> sess := Some u'; "err:" ^ merr_name e ^ ":" ^ counters u'
-              | Mgr.ROk Mgr.Consumed -> sess := Some u'; "C:" ^ counters u'
-              | Mgr.ROk Mgr.FirmwareComplete -> sess := Some u'; "F:" ^ counters u'))
+              | Mgr.RErr e -> sess := Some (flat_upd u'); "err:" ^ merr_name e ^ ":" ^ counters u'
+              | Mgr.ROk Mgr.Consumed -> sess := Some (flat_upd u'); "C:" ^ counters u'
+              | Mgr.ROk Mgr.FirmwareComplete -> sess := Some (flat_upd u'); "F:" ^ counters u'))
         | "done", [] ->
           (match !sess with
            | None -> "nosession"
@@ -124,7 +139,7 @@ let run_case ~(checked : bool) ~(ffr : bool) (nslots : int) (slot : int) (blk : 
           (match r with
            | Mgr.RPanic -> "panic" | Mgr.RErr e -> "err:" ^ merr_name e
            | Mgr.ROk None -> "none"
-           | Mgr.ROk (Some u) -> sess := Some u; "some:" ^ counters u)
+           | Mgr.ROk (Some u) -> sess := Some (flat_upd u); "some:" ^ counters u)
         | "cancel", [] ->
           let (d, r) = Mgr.cancel_all_ext_pending m !dev in
           dev := d;
